@@ -178,13 +178,17 @@ func (b *heapBox[T]) Do(o Op) *Viol {
 		v := b.sys.U[o.A[0]]
 		arg := argSlice([]T{v})
 		b.a.push(arg...)
-		scribble(arg, b.sys.Poison)
+		if v := scribbleCheck(arg, b.sys.Poison, b.a.values, b.a.name, o.N); v != nil {
+			return v
+		}
 		b.ref = append(append([]T{}, b.ref...), v)
 	case "bulk":
 		vs := b.idxTuple(b.sys.Bulk[o.A[0]])
 		arg := argSlice(vs)
 		b.a.push(arg...)
-		scribble(arg, b.sys.Poison)
+		if v := scribbleCheck(arg, b.sys.Poison, b.a.values, b.a.name, o.N); v != nil {
+			return v
+		}
 		b.ref = append(append([]T{}, b.ref...), vs...)
 	case "pop":
 		got, ok := b.a.pop()
